@@ -14,14 +14,64 @@ from .common import Recorder, Timeout, time_limit
 SCHEMAS = ["basic", "list", "strict", "title", "table"]
 
 
-def extra_specs():
+def random_specs(seed, n=12):
+    """seeded random well-founded schemas: leaves, containers over random content expressions"""
+    import random as _r
+
+    from prosemirror.model import Schema
+
+    rnd = _r.Random(seed * 101 + 7)
+    out = {}
+    tries = 0
+    while len(out) < n and tries < 400:
+        tries += 1
+        k = rnd.randint(3, 5)
+        conts = [f"n{i}" for i in range(k)]
+        leaves = ["l0", "l1"]
+        nodes = {"text": {"group": "inline"}, "l0": {}, "l1": {"attrs": {"x": {}}} if rnd.random() < 0.5 else {}, "tb": {"content": "text*"}}
+        names = conts + leaves + ["tb"]
+
+        def expr(level=-1):
+            # layered (well-founded): a container only mentions containers of a higher index
+            allowed = [x for x in names if not x.startswith("n") or int(x[1:]) > level]
+            parts = []
+            for _ in range(rnd.randint(1, 3)):
+                a = rnd.choice(allowed)
+                if rnd.random() < 0.35:
+                    a = f"({a} | {rnd.choice(allowed)})"
+                a += rnd.choice(["", "", "+", "*", "?", "{2}"])
+                parts.append(a)
+            return " ".join(parts)
+
+        for i, c in enumerate(conts):
+            nodes[c] = {"content": expr(i)}
+        nodes = {"doc": {"content": expr()}, **nodes}
+        spec = {"nodes": nodes}
+        try:
+            Schema(spec)
+        except Exception:  # noqa: BLE001
+            continue
+        out[f"r{len(out)}"] = spec
+    return out
+
+
+def extra_specs(seed=1):
     """small schemas with awkward content expressions (required sequences, non-generatable types)"""
     base = lambda doc, **more: {"nodes": {"doc": {"content": doc}, "a": {"group": "g", "content": "text*"}, "b": {"group": "g", "content": "text*"},  # noqa: E731
                                           "c": {"content": "g+"}, "r": {"attrs": {"x": {}}, "content": "text*"}, "w": {"content": "c a?"}, "text": {"group": "inline"}, **more}}
-    return {
+    out = {
+        # the same wrapper reachable from two parents, one of which needs a sibling after it
+        "x7": {"nodes": {"doc": {"content": "(section | card)+"}, "section": {"content": "figure caption"}, "card": {"content": "figure"},
+                         "figure": {"content": "row+"}, "caption": {"content": "text*"}, "row": {}, "text": {"group": "inline"}}},
+        "x8": {"nodes": {"doc": {"content": "(box | pair)+"}, "pair": {"content": "inner tail"}, "box": {"content": "wrap"}, "wrap": {"content": "inner"},
+                         "inner": {"content": "leaf+"}, "tail": {"content": "text*"}, "leaf": {}, "text": {"group": "inline"}}},
+    }
+    out.update(random_specs(seed))
+    out.update({
         "x1": base("a b c"), "x2": base("(a | b)+ c?"), "x3": base("a{2} b{1,2} w*"), "x4": base("c* (r | a) b"), "x5": base("w+ | (a b)+"),
         "x6": base("a? r? b+"),
-    }
+    })
+    return out
 
 
 def states(S, O, tname):
@@ -95,7 +145,7 @@ def run(tier, seed, findings):
     rec = Recorder("C15")
     rnd = random.Random(seed)
     schemas = [(n,) + D.schema(n) for n in SCHEMAS]
-    for n, spec in extra_specs().items():
+    for n, spec in extra_specs(seed).items():
         schemas.append((n, Schema(spec), orc.OSchema(spec)))
     for name, S, O in schemas:
         gen_kids = {}
@@ -229,5 +279,5 @@ def run(tier, seed, findings):
                     rec.violation("create-and-fill-content", f"given content {list(content)} not contained in order in {names}", call)
     return rec.result(
         rule="every reachable match state (<= 40 per node type, prefixes <= 5) of every non-leaf node type of 5 schema variants + 6 small schemas with awkward expressions and non-generatable types: fill_before for following fragments (<= 3 nodes), both to_end values, start indices; find_wrapping for every target type (twice: cache); create_and_fill; oracles: BFS over independent derivative automata; distinct by call JSON",
-        bounds=dict(tier=tier, schemas=SCHEMAS + list(extra_specs())),
+        bounds=dict(tier=tier, schemas=SCHEMAS + list(extra_specs(seed))),
     )
